@@ -20,6 +20,7 @@ import (
 	"github.com/ClickHouse/ch-go/proto"
 	"pgregory.net/rapid"
 
+	"verif/harness/gen"
 	"verif/harness/ref"
 	"verif/harness/simnet"
 	"verif/harness/stats"
@@ -61,6 +62,18 @@ func raceInsert(rt *rapid.T, scen string) {
 	e.warm = rapid.SampledFrom(warmKinds).Draw(rt, "earlier-exchange")
 	defer e.conn.ForceClose()
 	cols := drawInput(rt, "col", 2, 1)
+	// One run in three: zone-parameterised time types on both sides at once - an input column the
+	// sender infers from the column info, telemetry time columns the receiver infers.
+	zone := ""
+	if rapid.IntRange(0, 2).Draw(rt, "zoned-times") == 0 {
+		zone = rapid.SampledFrom([]string{"Asia/Kathmandu", "Atlantic/Reykjavik", "America/St_Johns", "Pacific/Chatham", "Europe/Berlin"}).Draw(rt, "zone")
+		k := gen.ByName["DateTime('UTC')|X|DateTime"]
+		if k != nil {
+			rows := gen.DrawRows(rt, k, len(cols[0].rows))
+			cols[0] = inputCol{name: cols[0].name, kind: k, rows: rows, col: k.New()}
+			cols[0].col.AppendBulk(rows)
+		}
+	}
 	rounds := rapid.IntRange(2, 5).Draw(rt, "rounds")
 	m := comp.Method
 	e.srv.Steps = append(e.srv.Steps,
@@ -74,8 +87,8 @@ func raceInsert(rt *rapid.T, scen string) {
 	for i := 1; i <= rounds; i++ {
 		e.srv.Steps = append(e.srv.Steps,
 			itemStep(Item{Kind: "progress", Progress: ref.Progress{Rows: uint64(i), Bytes: 10}}, simnet.AfterDataBlocks(i), 0, nil),
-			itemStep(Item{Kind: "profileevents", Events: []profEvent{{Host: "h", Type: 1, Name: "InsertedRows", Value: uint64(i)}}}, nil, 0, nil),
-			itemStep(Item{Kind: "log", Logs: []logRow{{Time: 1, Host: "h", QueryID: "q", Source: "s", Text: "t"}}}, nil, 0, nil))
+			itemStep(Item{Kind: "profileevents", Zone: zone, Events: []profEvent{{Host: "h", Type: 1, Name: "InsertedRows", Value: uint64(i)}}}, nil, 0, nil),
+			itemStep(Item{Kind: "log", Zone: zone, Logs: []logRow{{Time: 1, Host: "h", QueryID: "q", Source: "s", Text: "t"}}}, nil, 0, nil))
 	}
 	e.srv.Steps = append(e.srv.Steps, itemStep(Item{Kind: "eos"}, simnet.AfterInputEnd, 0, nil))
 	opt := baseOptions(54460, comp)
